@@ -691,7 +691,16 @@ func init() {
 							// scanning the remaining siblings in the caller (handled below)
 						}
 					case *ast.AssignStmt:
-						if len(x.Lhs) == 1 && len(x.Rhs) == 1 && types.ExprString(x.Lhs[0]) == "cur" {
+						// a descent step: v = v.left / v = v.right for the cursor variable v (whatever its name)
+						isStep := false
+						if len(x.Lhs) == 1 && len(x.Rhs) == 1 {
+							if sel, ok := ast.Unparen(x.Rhs[0]).(*ast.SelectorExpr); ok {
+								if lo := prog.IdentObj(info, x.Lhs[0]); lo != nil && lo == prog.IdentObj(info, sel.X) {
+									isStep = true
+								}
+							}
+						}
+						if isStep {
 							switch prog.SelField(info, x.Rhs[0]) {
 							case left:
 								steps = append(steps, step{"left", rels, x.Pos()})
@@ -765,7 +774,7 @@ func init() {
 				}
 				lsel, lok := ast.Unparen(as.Lhs[0]).(*ast.SelectorExpr)
 				rsel, rok := ast.Unparen(as.Rhs[0]).(*ast.SelectorExpr)
-				if lok && rok && types.ExprString(lsel.X) == "node" && types.ExprString(rsel.X) == "cur" {
+				if lok && rok && r.isParam(put, lsel.X, 0) && prog.IdentObj(pi, rsel.X) != nil && !r.isParam(put, rsel.X, 0) {
 					lf, rf := prog.SelField(pi, lsel), prog.SelField(pi, rsel)
 					if lf == rf && (lf == left || lf == right || lf == rank) {
 						copied[lf.Name()] = true
